@@ -61,6 +61,7 @@ type rnode struct {
 	up           bool
 	cut          bool
 	starts       int
+	light        bool
 	lastIncluded uint64
 	wantUp       bool // the operator wants this node running: a refused start is retried at the next timeline step
 }
@@ -151,6 +152,7 @@ func (rw *rworld) start(rn *rnode) {
 	cfg.RootDir = sn.Root
 	cfg.ChainID = rw.w.Genesis.ChainID
 	cfg.Node.Aggregator = rn.agg
+	cfg.Node.Light = rn.light
 	cfg.Node.BlockTime = config.DurationWrapper{Duration: rw.bt}
 	cfg.Node.LazyMode = rn.agg && rw.s.Cfg["lazy"] == 1
 	cfg.Node.LazyBlockInterval = config.DurationWrapper{Duration: 5 * rw.bt}
@@ -409,6 +411,14 @@ func c13RestartBody(t *testing.T, s *sim.Scn, o *sim.Outcome) {
 					rw.link(rw.nodes[a], rw.nodes[b])
 				}
 			}
+		case "hang":
+			// the sequencer node's mempool query hangs (honouring its context) until the next "hang"
+			if op.A%2 == 0 {
+				agg.sn.Exec.StallGetTxs()
+				o.Count("timeline:mempool-query-hangs", 1)
+			} else {
+				agg.sn.Exec.ReleaseGetTxs()
+			}
 		case "da":
 			rw.w.DA.SubmitScript = append(rw.w.DA.SubmitScript, sim.SubmitOutcome{Kind: sim.SubmitKind(op.A % 10), N: int(op.B)})
 		}
@@ -428,6 +438,7 @@ func c13RestartBody(t *testing.T, s *sim.Scn, o *sim.Outcome) {
 		o.Logf("%d %s agg=%d", i, op, agg.sn.Height())
 	}
 	// fault-free final phase
+	agg.sn.Exec.ReleaseGetTxs()
 	rw.w.DA.SubmitScript = nil
 	for _, x := range rw.nodes {
 		x.cut = false
@@ -559,6 +570,8 @@ func c13RestartGen(r *rand.Rand, tier string) *sim.Scn {
 			s.Ops = append(s.Ops, sim.Op{K: "cut", A: r.Int64N(3)})
 		case x < 96:
 			s.Ops = append(s.Ops, sim.Op{K: "heal"})
+		case x < 98:
+			s.Ops = append(s.Ops, sim.Op{K: "hang", A: r.Int64N(2)})
 		default:
 			s.Ops = append(s.Ops, sim.Op{K: "da", A: r.Int64N(10), B: r.Int64N(3)})
 		}
